@@ -8,7 +8,7 @@ import (
 // C20FreeRun runs the operation bodies on g free-running goroutines (each with its own UE index), rounds times,
 // and returns the outputs that differ from the sequential run.
 func C20FreeRun(g, rounds int) []string {
-	ops := c20ops()
+	ops := append(c20ops(), c20long()...)
 	// a first concurrent round before anything was used in this process (lazily built state is then built concurrently);
 	// its outputs are compared once the sequential ones are known
 	cold := make([]string, g)
